@@ -41,8 +41,9 @@ var table = map[string]map[string]string{
 		"Exit": "simrt.Exit", "Stdout": "simrt.Stdout", "Stderr": "simrt.Stderr", "Args": "simrt.Args()",
 		"Open": "simrt.Open", "Create": "simrt.Create", "OpenFile": "simrt.OpenFile", "Stat": "simrt.Stat", "Lstat": "simrt.Stat",
 		"Rename": "simrt.Rename", "Remove": "simrt.Remove", "ReadFile": "simrt.ReadFile", "WriteFile": "simrt.WriteFile",
+		"CreateTemp": "simrt.CreateTemp", "Chmod": "simrt.Chmod", "RemoveAll": "simrt.Remove", "MkdirAll": "simrt.MkdirAll", "Mkdir": "simrt.Mkdir", "TempDir": "simrt.TempDir",
 	},
-	"io/ioutil":             {"ReadFile": "simrt.ReadFile", "WriteFile": "simrt.WriteFile"},
+	"io/ioutil":             {"ReadFile": "simrt.ReadFile", "WriteFile": "simrt.WriteFile", "TempFile": "simrt.CreateTemp"},
 	"fmt":                   {"Print": "simrt.Print", "Printf": "simrt.Printf", "Println": "simrt.Println"},
 	"time":                  {"Now": "simrt.Now", "Since": "simrt.Since", "Sleep": "simrt.Sleep"},
 	"path/filepath":         {"Glob": "simrt.Glob"},
@@ -323,6 +324,26 @@ func Weave(dir string) (*Report, error) {
 						}
 					}
 					return true
+				}
+				if (sel.Sel.Name == "Get" && len(x.Args) == 0) || (sel.Sel.Name == "Put" && len(x.Args) == 1) {
+					if t := info.TypeOf(sel.X); t != nil {
+						ts := types.TypeString(t, nil)
+						if ts == "sync.Pool" || ts == "*sync.Pool" {
+							amp := "&"
+							if ts == "*sync.Pool" {
+								amp = ""
+							}
+							// a pool that the garbage collector empties at times of its own choosing is a
+							// source of nondeterminism: route it to a plain free list owned by the simulator
+							add(edit{off(x.Pos()), off(sel.X.Pos()), "simrt.Pool" + sel.Sel.Name + "(" + amp, "pool:" + sel.Sel.Name}, x.Pos())
+							if sel.Sel.Name == "Get" {
+								leaves = append(leaves, edit{off(sel.X.End()), off(x.End()), ")", ""})
+							} else {
+								leaves = append(leaves, edit{off(sel.X.End()), off(x.Lparen) + 1, ", ", ""})
+							}
+							return true
+						}
+					}
 				}
 				if sel.Sel.Name != "MapKeys" && sel.Sel.Name != "MapRange" {
 					return true
